@@ -239,6 +239,9 @@ class Ctx:
         self.steps = 0
         self.ghost = {}
         self.trace = PList([])
+        self.cache_tag = None
+        for p in getattr(self, "plugins", []):
+            p.reset()
         self.speculating = 0
         self.if_conversion = not bool(os.environ.get("PYVC_NO_IFCONV"))
         self.entry_ids_all = _AnyId()
@@ -306,7 +309,7 @@ class Ctx:
         if idx < len(self.prefix):
             d = self.prefix[idx]
         else:
-            key = tuple(self.prefix)
+            key = (self.cache_tag, tuple(self.prefix))
             if key in self.feas_cache:
                 t_ok, f_ok = self.feas_cache[key]
             else:
@@ -1057,6 +1060,50 @@ class Ctx:
                 return r
         return NotImplemented
 
+    def check_clause(self, text, env, old, name, kind, line=None):
+        """Evaluate one contract clause and check it.  Forks that happen INSIDE the clause (layout slicing,
+        symbolic indices ...) are explored locally from the same post-state, so they do not multiply with the
+        forks of the other clauses or re-run the function body."""
+        base_pc = len(self.pc)
+        base_prefix = list(self.prefix)
+        base_idx = self.dec_idx
+        outer_work = self.worklist
+        local = [[]]
+        saved_tag = self.cache_tag
+        self.cache_tag = (name, tuple(base_prefix))
+        n_local = 0
+        try:
+            while local:
+                suffix = local.pop()
+                n_local += 1
+                if n_local > 4000:
+                    raise Unsupported(f"clause {name} forks into more than 4000 cases")
+                del self.pc[base_pc:]
+                self.prefix = base_prefix + suffix
+                self.dec_idx = base_idx
+                self.worklist = []
+                self.fs.push()
+                snaps = [p.snapshot() for p in self.plugins]
+                caches = (dict(self.sqrt_cache), dict(self.trig_cache))
+                try:
+                    g = self.eval_clause(text, env, old)
+                    self.check(g, name, kind, text, line)
+                except PathEnd:
+                    pass
+                finally:
+                    self.fs.pop()
+                    for p, sn in zip(self.plugins, snaps):
+                        p.restore(sn)
+                    self.sqrt_cache, self.trig_cache = caches
+                    for full in self.worklist:
+                        local.append(full[len(base_prefix):])
+        finally:
+            del self.pc[base_pc:]
+            self.prefix = base_prefix
+            self.dec_idx = base_idx
+            self.worklist = outer_work
+            self.cache_tag = saved_tag
+
     def eval_clause(self, text, env, old=None):
         try:
             tree = ast.parse(text.strip(), mode="eval")
@@ -1520,6 +1567,13 @@ class Ctx:
             fname = c.fn.__name__
             f = self.sidecar.functions.get(fname)
             if f is None:
+                from .world import FuncInfo as _FI
+
+                for node in ast.walk(self.sidecar.tree):
+                    if isinstance(node, ast.FunctionDef) and node.name == fname:
+                        f = _FI(self.sidecar, fname, node)
+                        break
+            if f is None:
                 raise SourceError(f"harness {fname} not found in side-car")
             return f
         f = self.world.func(c.target)
@@ -1580,8 +1634,7 @@ class Ctx:
                 fr_w = Frame(self.sidecar, None, True, dict(env2))
                 env2[gname] = I.eval(ast.parse(wit, mode="eval").body, fr_w)
             for i, text in enumerate(c.ensures):
-                g = self.eval_clause(text, env2, old)
-                self.check(g, f"{c.name}/post#{i}", "post", text)
+                self.check_clause(text, env2, old, f"{c.name}/post#{i}", "post")
             self.check_frame(env, old)
         else:
             self.result.raise_paths += 1
@@ -1924,3 +1977,12 @@ class Plugin:
 
     def seq_len(self, I, it):
         return NotImplemented
+
+    def reset(self):
+        pass
+
+    def snapshot(self):
+        return None
+
+    def restore(self, snap):
+        pass
